@@ -228,6 +228,14 @@ def c04_clauses(case, truth, rec, which, par):
       ref = truth.req_impact(nd['t'], nd['c'])
       if not util.close(nd['impact'], ref, rtol=1e-6):
         out.append(V('impact-closed-form', which + ':impact-vs-closed-form', 'design #%d required_impact %r, closed form %r' % (pos, nd['impact'], ref)))
+    if np.ptp(rc['x']) == 0 and len(nd['tests']) == 4:
+      # documented: "if the regression fit was not possible, the [Brownian bridge] test fails" - a constant control
+      # series admits no fit
+      INFO['constant_control_designs'] = INFO.get('constant_control_designs', 0) + 1
+      if _b(nd['tests'][2]) is not False:
+        out.append(V('tests-constant-control', which + ':bb-test-passes-without-a-fit',
+                     'design #%d T=%s C=%s: the control series is constant over the window (no regression fit possible) but the Brownian-bridge test is reported as %r' % (
+                         pos, nd['t'], nd['c'], nd['tests'][2])))
     if sl.score_knife_edge(rc):
       continue
     if tuple(map(_b, nd['tests'])) != tuple(map(_b, rc['tests'])):
